@@ -11,6 +11,8 @@ package message
 //   bytes 16..   the ssid words, big-endian, 4 bytes each (word 0 = contract)
 
 import (
+	"github.com/kelindar/binary"
+
 	"github.com/emitter-io/emitter/internal/security/hash"
 	vs "github.com/emitter-io/emitter/internal/verifspec"
 )
@@ -397,3 +399,31 @@ func standinTriePrefixPair(c, a, b uint32, id1, id2 string) bool {
 	t.Unsubscribe(Ssid{c, a}, s1)
 	return ok0 && ok1 && t.Count() == 0 && len(t.root.children) == 0
 }
+
+// ---------------------------------------------------------------------------------------------------------
+// Hostile input (property C09): functions reached by frames and gossip from the cluster port run on goroutines
+// with no recover above them - a panic there takes the broker down. Safety-only contracts, precondition "any
+// input at all".
+
+func pre_any() bool { return true }
+
+// share-group selection (a sync.Pool of scratch state, a random pick) is kept outside this contract
+//@ assume (*Trie).randomByGroup iface
+
+//@ verify (*Trie).Lookup pre=pre_Trie_Lookup props=C09
+func pre_Trie_Lookup(t *Trie, ssid Ssid) bool {
+	// the trie's own shape (set up by newTrie, kept by Subscribe/Unsubscribe): nodes stored as children are nodes
+	return t != nil && t.root != nil && t.root.children != nil && len(ssid) >= 1 &&
+		vs.ForallKey(t.root.children, func(k uint32) bool { return !vs.Has(t.root.children, k) || (t.root.children[k] != nil && t.root.children[k].children != nil) })
+}
+
+//@ verify (*Frame).Limit pre=pre_Frame_Limit props=C09
+func pre_Frame_Limit(f *Frame) bool { return f != nil }
+
+// readBytes: the length prefix of a peer frame field is attacker-controlled; Decoder.Slice requires a length that
+// is not negative as an int (read off kelindar/binary's sliceReader.Slice: a negative n slices backwards and panics)
+//@ assume (*github.com/kelindar/binary.Decoder).Slice iface pre=pre_Decoder_Slice
+func pre_Decoder_Slice(n int) bool { return n >= 0 }
+
+//@ verify readBytes pre=pre_readBytes props=C09
+func pre_readBytes(d *binary.Decoder) bool { return d != nil }
